@@ -155,6 +155,9 @@ impl Hist {
 		snap["info"] = json!(infos);
 		self.steps[i].push(json!({"op": op, "rc": rc, "snap": snap, "extra": extra}));
 	}
+	fn record_with(&mut self, i: usize, op: Value, rc: Vec<u64>, extra: Value) {
+		self.record(i, op, rc, extra)
+	}
 	fn active(&self, i: usize) -> u64 {
 		self.s.with(i, |b, _| key_pair(&b.parent_key_id()).0)
 	}
@@ -316,14 +319,29 @@ impl Hist {
 			});
 		}
 		let aif = args.amount_includes_fee.unwrap_or(false);
-		self.record(
+		// what the new context promises to spend (for the "selection only takes spendable outputs" oracles)
+		let sel_inputs: Value = match &r {
+			Ok(Ok(sl)) => self.s.with(i, |b, m| match b.get_private_context(m, sl.id.as_bytes()) {
+				Ok(c) => json!(c
+					.get_inputs()
+					.iter()
+					.map(|(k, mmr, v)| {
+						let (a, ch) = key_pair(k);
+						json!([a, ch, mmr, v.to_string()])
+					})
+					.collect::<Vec<_>>()),
+				Err(_) => json!(null),
+			}),
+			_ => json!(null),
+		};
+		self.record_with(
 			i,
 			json!({"k": "init_send", "slate": num, "src": src, "parent": parent, "view": view, "late": late,
 				"p": {"amount": amount.to_string(), "aif": aif, "h": tip, "minconf": args.minimum_confirmations,
 					"max_outputs": args.max_outputs, "change_outputs": args.num_change_outputs,
 					"all": args.selection_strategy_is_use_all}}),
 			rc,
-			json!({}),
+			json!({"sel_inputs": sel_inputs}),
 		);
 	}
 	/// Invoice flow. In an invoice flight `sender` is the ISSUER (payee); s1 = the invoice,
@@ -670,6 +688,56 @@ impl Hist {
 		);
 	}
 
+	/// Directed payment: a send is initiated, delivered into a chosen account of the other wallet,
+	/// reserved, finalized, posted, mined and then seen by a refresh of that account (and of the
+	/// sender's) — so that confirmations of non-coinbase outputs in BOTH accounts occur often.
+	fn pay_episode(&mut self) {
+		let sender = self.p.below(2) as usize;
+		let before = self.flights.len();
+		self.init_send(sender);
+		if self.flights.len() == before {
+			return;
+		}
+		let f = self.flights.len() - 1;
+		let s1 = self.flights[f].s1.clone();
+		let num = self.flights[f].num;
+		let r_i = 1 - sender;
+		let dest: Option<u64> = Some(self.p.below(2));
+		let dest_name = dest.and_then(acct_name);
+		let r = guarded(|| self.s.with(r_i, |b, m| foreign::receive_tx(b, m, &s1, dest_name, false)));
+		let rc = rc_of(&r);
+		if let Ok(Ok(s2)) = &r {
+			self.flights[f].s2 = Some(s2.clone());
+		}
+		self.record(
+			r_i,
+			json!({"k": "receive", "slate": num, "amount": s1.amount.to_string(), "ttl": s1.ttl_cutoff_height,
+				"dest": dest, "crypto_ok": true}),
+			rc.clone(),
+			json!({"foreign": true, "reply_participants": if rc == vec![0] { 1 } else { -1 }, "tampered": false}),
+		);
+		if rc != vec![0] {
+			return;
+		}
+		self.lock(f);
+		self.finalize(f);
+		if self.flights[f].fin.is_none() {
+			return;
+		}
+		self.post(f);
+		let miner = self.p.below(2) as usize;
+		self.mine(miner, true);
+		// look at the destination account (switch to it if needed), then at the sender's
+		let d = dest.unwrap();
+		if self.active(r_i) != d {
+			self.set_active(r_i, d);
+		}
+		let all = self.p.coin();
+		self.refresh(r_i, all);
+		let all2 = self.p.coin();
+		self.refresh(sender, all2);
+	}
+
 	/// Directed reorg episode built from the primitive operations: complete a payment, confirm
 	/// it at the recipient, orphan it by a longer fork, look again (reverted), then either
 	/// re-mine it (re-confirmed) or leave it; with refreshes at the intermediate points.
@@ -825,6 +893,7 @@ impl Hist {
 		};
 		let w_fork = if self.profile == "c18" { 6 } else { 0 };
 		let w_episode = if self.profile == "c18" { 8 } else { 0 };
+		let w_pay = 6;
 		let mut acc = 0;
 		let mut in_band = |w: u64| {
 			let lo = acc;
@@ -870,6 +939,8 @@ impl Hist {
 			self.fork(i);
 		} else if in_band(w_episode) {
 			self.reorg_episode();
+		} else if in_band(w_pay) {
+			self.pay_episode();
 		} else if self.p.chance(1, 3) {
 			self.s.reopen(i);
 		}
